@@ -587,6 +587,42 @@ func c17Main(r *engine.Run) {
 	for _, o := range BuildAlphabet(id, 0).GCs {
 		areal = append(areal, o.G)
 	}
+	// simplification that would make the result invalid must be reported, not returned:
+	// (a) a MultiPolygon whose second member's tip sits inside a V-notch of the first (dropping the
+	// notch apex makes the members overlap); (b) a polygon whose hole sits inside an outward bump
+	// of the shell (dropping the bump apex leaves the hole outside). Every notch depth × tip depth,
+	// both member orders, inside a collection, and with Z.
+	var fragile []geom.Geometry
+	for _, d := range []int{10, 15, 25} {
+		for _, e := range []int{2, 5, 8} {
+			notched := id.Polygon([]universe.LPt{{0, 0}, {50, 0}, {50, 50}, {30, 50}, {25, 50 - d}, {20, 50}, {0, 50}, {0, 0}})
+			tooth := id.Polygon([]universe.LPt{{25, 50 - d + e}, {27, 60}, {55, 90}, {-5, 90}, {23, 60}, {25, 50 - d + e}})
+			// the hole starts at its top vertex so that Douglas-Peucker keeps it up to thresholds beyond d
+			bumped := id.Polygon([]universe.LPt{{0, 0}, {50, 0}, {50, 50}, {45, 50}, {25, 50 + d}, {5, 50}, {0, 50}, {0, 0}},
+				[]universe.LPt{{25, 50 + d - e}, {10, 51}, {40, 51}, {25, 50 + d - e}})
+			for _, g := range []geom.Geometry{
+				geom.NewMultiPolygon([]geom.Polygon{notched, tooth}).AsGeometry(),
+				geom.NewMultiPolygon([]geom.Polygon{tooth, notched}).AsGeometry(),
+				geom.NewGeometryCollection([]geom.Geometry{geom.NewMultiPolygon([]geom.Polygon{notched, tooth}).AsGeometry(), id.Point(universe.LPt{X: 99, Y: 99}).AsGeometry()}).AsGeometry(),
+				bumped.AsGeometry(),
+				geom.NewMultiPolygon([]geom.Polygon{bumped}).AsGeometry(),
+			} {
+				if g.Validate() != nil {
+					panic("c17: fragile family member invalid: " + g.AsText())
+				}
+				fragile = append(fragile, g, withZM(g, geom.DimXYZ))
+			}
+		}
+	}
+	r.States.Add(int64(len(fragile)))
+	if r.Parallel(len(fragile), func(i int) {
+		for _, t := range []float64{0, 1, 4.9, 5, 7.5, 9.9, 10, 12, 14.9, 15, 20, 24.9, 25, 30, 60} {
+			c17Simplify(r, fragile[i], t)
+		}
+		r.Nontrivial(fragile[i].AsText())
+	}) {
+		r.Bound(fmt.Sprintf("%d fragile areal geometries (tooth in a notch, hole in a bump; 3 depths × 3 insets × orders/wrappers/Z) × 15 thresholds around every depth: valid result or error", len(fragile)))
+	}
 	r.States.Add(int64(len(areal)))
 	if r.Parallel(len(areal), func(i int) {
 		g := areal[i]
